@@ -68,3 +68,11 @@ package signappx
 //@   ensures @no_block_digest_mismatch_is_tolerated ret0 == nil ==> !bad
 //@   loop 1 sig "for _, zf := range inz.File" invariant !bad
 //@   loop 2 sig "for i, block := range bmf.Block" invariant !bad
+//@
+//@ func readSignature
+//@   property C02 C11
+//@   nopanic
+//@   ghost cmsOK bool = false
+//@   on call (*pkcs7.SignedData).Verify(_, ext, skip) ret (s, e): cmsOK = (e == nil && !skip && len(ext) == 0)
+//@   ensures @digest_table_comes_from_a_verified_cms_signature ret1 == nil ==> cmsOK && ret0 != nil
+//@   loop 0 sig "for len(digests) > 0" invariant digestmap != nil
